@@ -448,7 +448,8 @@ namespace xsimd
     rotl(T0 x, T1 shift) noexcept
     {
         constexpr auto N = std::numeric_limits<T0>::digits;
-        return (x << shift) | (x >> (N - shift));
+        // (N - shift) % N: a count of 0 must not shift by the full width (undefined behaviour)
+        return (x << shift) | (x >> ((N - shift) % N));
     }
 
     template <class T0, class T1>
@@ -456,7 +457,7 @@ namespace xsimd
     rotr(T0 x, T1 shift) noexcept
     {
         constexpr auto N = std::numeric_limits<T0>::digits;
-        return (x >> shift) | (x << (N - shift));
+        return (x >> shift) | (x << ((N - shift) % N));
     }
 
     template <class T>
